@@ -9,6 +9,7 @@ SYMS = {
     "e": ([0xC3, 0xA9], 233), "x": ([0xFF], 0xFFFD), "A": ([65], 65), "q": ([34], 34), "k": ([92], 92), "z": ([0], 0),
     "d": ([46], 46), "p": ([43], 43), "1": ([49], 49), "t": ([9], 9), "m": ([13], 13),
     "w": ([115], 115), "j": ([107], 107), "f": ([0xC5, 0xBF], 0x17F), "g": ([0xE2, 0x84, 0xAA], 0x212A), "W": ([83], 83),
+    "v": ([0xE2, 0x85, 0xB7], 0x2177), "V": ([0xE2, 0x85, 0xA7], 0x2167),
 }
 
 
@@ -17,7 +18,8 @@ def fold_family():
     P = lambda i, pat: named("T%d" % i, pat)
     return [{"id": "F0", "rules": {"Root": [P(0, "(?i)ks"), P(1, "(?s).")]}},
             {"id": "F1", "rules": {"Root": [P(0, "(?i)as"), P(1, "(?i)k"), P(2, "(?s).")]}},
-            {"id": "F2", "rules": {"Root": [P(0, "(?i)sa+"), P(1, "[^a]")]}}], list("awjfgW")
+            {"id": "F2", "rules": {"Root": [P(0, "(?i)sa+"), P(1, "[^a]")]}},
+            {"id": "F3", "rules": {"Root": [P(0, "(?i)\u2177"), P(1, "(?i)a\u2177"), P(2, "(?s).")]}}], list("awjfgWvV")
 
 
 def alpha(names):
@@ -91,6 +93,8 @@ def curated():
     add({"Root": [named("Open", "(a+)", "push", "S1"), rule("b")], "S1": [named("Open2", "(b+)", "push", "S1"), named("End", "\\1c", "pop"), rule("\\s+", True)]})
     # a back-referencing state re-entered with different groups while still on the stack (inner pop must restore the outer groups)
     add({"Root": [named("Open", "([ab])", "push", "S1"), rule("c")], "S1": [named("End", "\\1", "pop"), named("Open", "([ab])", "push", "S1"), rule("c")]})
+    # an ELIDED (lower-case) rule carrying Push / Pop around a back-reference state
+    add({"Root": [named("open", "(a+)b", "push", "S1"), rule("[a-c]"), rule("\\s+", True)], "S1": [named("End", "\\1", "pop"), named("skip", "c", "push", "S2"), rule("[ab]")], "S2": [named("back", "b", "pop"), rule("a")]})
     # elided rules, shared names across states, multi-byte, invalid bytes, newlines inside tokens
     add({"Root": [rule("a"), rule("[^a]", True)]})
     add({"Root": [rule("a", act="push", state="S1"), rule("b")], "S1": [rule("b"), rule("a", act="pop")]})
@@ -142,6 +146,10 @@ def curated_gen():
     add({"Root": [P(0, "a"), RET]})                                             # return in Root
     add({"Root": [P(0, "[^\\n]+"), P(1, "\\n")]})
     add({"Root": [P(0, "\\w+"), P(1, "\\s"), P(2, "[[:punct:]]")]})
+    # two pushing rules into different states (two live lexers of one definition must not share their state stacks)
+    add({"Root": [P(0, "a", act="push", state="S1"), P(1, "b", act="push", state="S2"), P(2, "c")],
+         "S1": [P(3, "c"), P(0, "a", act="push", state="S1"), P(4, "e", act="pop")],
+         "S2": [P(5, "\\("), P(1, "b", act="push", state="S2"), P(4, "e", act="pop")]})
     return G
 
 
